@@ -18,8 +18,8 @@ class LSim(mosaik_api_v3.Simulator):
     """in-process simulator with an injectable fault; step/get_data yield once so that several simulators are in flight"""
     def __init__(self):
         super().__init__({'api_version': '3.0', 'type': 'time-based', 'models': {'M': {'public': True, 'params': [], 'attrs': ['i', 'po']}}})
-    def init(self, sid, time_resolution=1.0, fault=None, typ='time-based', **kw):
-        self.sid = sid; self.fault = fault; self.n = {'step': 0, 'get_data': 0}; self.typ = typ
+    def init(self, sid, time_resolution=1.0, fault=None, typ='time-based', hold=False, **kw):
+        self.sid = sid; self.fault = fault; self.n = {'step': 0, 'get_data': 0}; self.typ = typ; self.hold = hold
         self.meta['type'] = typ
         return self.meta
     def create(self, num, model): return [{'eid': 'e', 'type': model}]
@@ -28,7 +28,7 @@ class LSim(mosaik_api_v3.Simulator):
         name = self.fault[2].split(':')[-1] if ':' in self.fault[2] else 'RuntimeError'
         AFTER.setdefault(self.sid, 0)         # (a repeated request that fails again must not reset the count)
         self.failed = True
-        return {'RuntimeError': RuntimeError, 'StopIteration': StopIteration, 'KeyError': KeyError, 'ValueError': ValueError}[name]('injected fault')
+        return {'RuntimeError': RuntimeError, 'StopIteration': StopIteration, 'KeyError': KeyError, 'ValueError': ValueError}.get(name, RuntimeError)('injected fault')
     def _seen(self):
         if getattr(self, 'failed', False): AFTER[self.sid] += 1
     def _fault(self, kind):
@@ -42,7 +42,9 @@ class LSim(mosaik_api_v3.Simulator):
     def step(self, time_, inputs, max_advance):
         self._seen()
         STEPS.append((time.time(), self.sid, time_))
-        yield asyncio.sleep(0)
+        # a held simulator is really suspended (on a timer) in the middle of its step when another one fails: its
+        # outstanding request must be abandoned, not left running on the loop
+        yield asyncio.sleep(0.3 if self.hold and time_ >= 1 else 0)
         f = self.fault
         if f and f[0] == 'step' and self.n['step'] == f[1] and '@' in f[2]:
             # the failure surfaces k event-loop iterations later (sweeps the moment of the failure relative to the
@@ -150,7 +152,7 @@ def one(topology, faulty, fkind, req, index, remote):
             elif remote == 'all':
                 ents.append(w.start('R', sim_id=f'S{i}', beh={'type': 'time-based', 'step_size': 1, 'default_output': [None, ['po']]}, log=logf, seed=i, fault=None).M())
             else:
-                ents.append(w.start('O' if (i == faulty and ':old:' in fkind) else 'P' if (i == faulty and ':plain:' in fkind) else 'L', sim_id=f'S{i}', fault=fault, typ=('event-based' if topology in ('trig', 'trigfree') and i == 1 else 'time-based')).M())
+                ents.append(w.start('O' if (i == faulty and ':old:' in fkind) else 'P' if (i == faulty and ':plain:' in fkind) else 'L', sim_id=f'S{i}', fault=fault, hold=(':held' in fkind and i != faulty), typ=('event-based' if topology in ('trig', 'trigfree') and i == 1 else 'time-based')).M())
         for i in range((n - 1) if topology not in ('free', 'trigfree') else 1):
             w.connect(ents[i], ents[i + 1], ('po', 'i'))      # 'free': A->B and an unconnected third simulator
         try:
@@ -247,6 +249,10 @@ def cases(tier):
     for fk, req, index in (('raise:ownloop', 'step', 1), ('raise:ownloop', 'get_data', 0), ('none:ownloop', 'step', 99), ('raise:plain:ownloop:RuntimeError', 'step', 0)):
         out.append(('pair', 0, fk, req, index, False))
         out.append(('chain', 1, fk, req, index, False))
+    # healthy simulators that are suspended inside their step (on a timer) at the moment of the failure
+    for topology, faulty in (('free', 2), ('free', 0), ('pair', 1), ('chain', 2)):
+        for fk, req, index in (('raise:held', 'step', 1), ('raise:held', 'step', 2), ('raise:plain:held:RuntimeError', 'step', 1), ('raise:held@3', 'step', 1)):
+            out.append((topology, faulty, fk, req, index, False))
     # the moment of the failure swept over event-loop iterations: an unconnected simulator fails k iterations into its
     # step while a triggered simulator is being woken / waits for its next step to settle
     for index in ((1, 2) if tier == 'quick' else (0, 1, 2, 3)):
